@@ -5,7 +5,7 @@ trace valid.: long random histories across all symbologies in one process, re-en
               every []byte argument followed by re-reads, and the same encodes from freshly started processes, validated by TraceHist.tla"""
 import json, os, subprocess
 import vlib, onedim, gen
-import C01, C02, C11
+import C01, C02, C03, C04, C11
 
 
 def pool(rng, n):
@@ -53,6 +53,16 @@ def c15_jobs(rng, quick, nhist, nenc):
         for j in mine:
             if rng.random() < (0.5 if quick else 0.8):
                 jobs.append(dict(op="reread", src=j["hid"], proj="digest", hist=h))
+    # repeat block: diverse inputs (the class pairs/triples, punctuation pairs and mode-switch texts of the Aztec and PDF417 generators, where an
+    # encoder search can meet cost ties), each encoded several times within one history - identical arguments must give identical barcodes every time
+    h = nhist
+    rep_jobs = [j for j in C03.az_jobs(rng, True) if len(j["content"]) <= 40 and j["p"][1] == 0] + [j for j in C04.pdf_jobs(rng, True) if len(j["content"]) <= 30]
+    rep_jobs = rng.sample(rep_jobs, min(len(rep_jobs), 260 if quick else 1500))
+    for rnd in range(5 if quick else 8):
+        for j in rep_jobs:
+            hid += 1
+            jj = dict(j, hid=hid, proj="digest", hist=h, skey="")
+            jobs.append(jj)
     return jobs
 
 
@@ -80,6 +90,7 @@ def run(tier):
     rng = chk.rng
     nhist, nenc = (3, 250) if quick else (30, 900)
     jobs = c15_jobs(rng, quick, nhist, nenc)
+    nhist += 1
     # mutation pass needs event indices: run once to learn which aztec encodes succeeded (inputs only), then run the full history in a fresh process
     probe = vlib.run_drive(drive, jobs, chk.work, name="probe")
     full = jobs + add_mutations(probe, jobs)
